@@ -4,6 +4,7 @@ import PyAirtouch.Model.CodecsPart1
 import PyAirtouch.Model.CodecsPart2
 import PyAirtouch.Model.CodecsPart5
 import PyAirtouch.Model.CodecsPart3
+import PyAirtouch.Model.CodecsPart4
 /-!
 # Dispatch table used by the driver: one entry per message module
 
@@ -16,7 +17,7 @@ open PyAirtouch.Model
 
 def table : List ((Nat × String) × Codec) := [
   ((4, "2B"), mk At4.X2B.decode At4.X2B.canon At4.X2B.size (fun m => .ok (At4.X2B.encode m)))
-] ++ CodecsPart1.table ++ CodecsPart2.table ++ CodecsPart5.table ++ CodecsPart3.table
+] ++ CodecsPart1.table ++ CodecsPart2.table ++ CodecsPart5.table ++ CodecsPart3.table ++ CodecsPart4.table
 
 def find (g : Nat) (key : String) : Option Codec := (table.find? (fun p => p.1 = (g, key))).map (·.2)
 
